@@ -178,7 +178,7 @@ func (m *RefShard) EvalFilter(schema models.IndexSchema, q models.Query) (IDSet,
 			}
 			sets = append(sets, r)
 		}
-		for id := range m.Docs {
+		for id := range detRange(m.Docs) {
 			// three-valued logic: 1 = must, 0 = may, -1 = no
 			acc := 1
 			if q.Property == "_or" {
@@ -222,7 +222,7 @@ func (m *RefShard) EvalFilter(schema models.IndexSchema, q models.Query) (IDSet,
 		}
 		return out, nil
 	}
-	for id, d := range m.Docs {
+	for id, d := range detRange(m.Docs) {
 		match, optional, err := matchLeaf(schema, q, d)
 		if err != nil {
 			return out, err
@@ -249,7 +249,7 @@ func CheckIDSet(want IDSet, got []Item) string {
 			return fmt.Sprintf("id %d returned but does not satisfy the predicate (doc %v)", it.ID, it.Doc)
 		}
 	}
-	for id := range want.Must {
+	for id := range detRange(want.Must) {
 		if !seen[id] {
 			return fmt.Sprintf("id %d satisfies the predicate but was not returned", PIDIndex(id))
 		}
